@@ -119,6 +119,107 @@ def o3_cancel_conn(chk, prog):
     chk.end(ob)
 
 
+@expectation('c18_connect')
+def c18_connect():
+    """Native: a real bb8 pool of ServerPool (min_idle 2) against a scripted PostgreSQL: once the connections are open and nobody uses them,
+    every listed server connection is `idle`; against a server that refuses the startup, nothing stays listed."""
+    def f(res):
+        for r in res:
+            if 'error' in r or 'panic' in r:
+                return False, 'native: %r' % (r,)
+            if any(s != 'idle' for s in r.get('states_after_open', [])) or r.get('listed_after_failure', 0) != 0:
+                return True, 'native: server connections opened ahead of use are listed as %r (idle required); after a failed connect %r entries stay listed' % (
+                    r.get('states_after_open'), r.get('listed_after_failure'))
+        return False, 'native: %r' % (res,)
+    return f
+
+
+def o4_connect(chk, prog):
+    """bb8's connect hook: the server connection's entry in the statistics."""
+    ob = chk.begin('O4-connect', '<ServerPool as ManageConnection>::connect (real coroutine) with Server::startup succeeding or failing (solver\'s choice): the new connection is '
+                   'registered exactly once; a connection handed to bb8 is in state idle (it sits in the pool until somebody checks it out); a failed connect leaves nothing registered',
+                   {'startup': 'Ok | Err'})
+    cands = [f for n, f in prog.funcs.items() if re.search(r'ManageConnection for ServerPool|pool::<impl at [^>]*>::connect$', n) and n.endswith('::connect')]
+    cands = [f for f in cands if 'ServerPool' in (prog.impl_of.get(f.name, ('', ''))[0] or '')] or cands
+    if len(cands) != 1:
+        raise Inconclusive('cannot locate ServerPool::connect (%d candidates)' % len(cands))
+    ip = chk.interp(prog, 'O4-connect')
+    base = list(ip.overrides)
+
+    def harness(ip_):
+        ip_.overrides[:] = base
+        calls = []
+
+        def rec(c, *a):
+            calls.append(c.callee.rsplit('::', 1)[-1])
+            t_ = (c.dest_ty or '').strip()
+            return unit() if t_ in ('()', '') else ip_.fresh_of_type(t_, 'stat')
+        started = {}
+
+        def startup(c, *a):
+            started['args'] = a
+            return Opaque('HookFuture', 'startup')
+
+        def poll_hook(ip2, co, ptr):
+            if isinstance(co, Opaque) and co.ty == 'HookFuture' and co.tag == 'startup':
+                from mirsym.models.util import ok as _ok, err as _err
+                if ip2.choose(2, 'startup_ok') == 1:
+                    started['ok'] = True
+                    return EnumV(BV(64, 0), {'Ready': [_ok(ip2, mk_server(ip2, prog, StreamV([], 'server')))]}, 'Poll')
+                started['ok'] = False
+                return EnumV(BV(64, 0), {'Ready': [_err(ip2, ip2.make_enum('Error', 'ServerStartupError', [rstring('refused'), Opaque('ServerIdentifier', 'id')]))]}, 'Poll')
+            raise Inconclusive('poll of %r' % (co,))
+        ip_.poll_hook = poll_hook
+        ip_.overrides[:0] = [
+            (re.compile(r'^(?:stats::\w+::)?ServerStats::new$'), lambda c, *a: Opaque('ServerStats', 'new')),
+            (re.compile(r'^(?:stats::\w+::)?ServerStats::(register|idle|disconnect|login|active|tested)$'), rec),
+            (re.compile(r'^(?:server::)?Server::<?.*>?::startup$|^(?:server::)?Server::startup$'), startup),
+            (re.compile(r'Instant::now$'), lambda c: Opaque('Instant', 'now')),
+        ]
+        from checks.c07 import mk_addr
+        names = prog.src.structs['ServerPool']
+        vals = {'address': mk_addr(ip_, prog, 0, 1), 'user': Opaque('User', 'u'), 'database': rstring('db'),
+                'client_server_map': Ptr(Cell(Agg([MapV('hashmap')], 'Lock'), 'csmap')), 'auth_hash': Ptr(Cell(Agg([none(ip_)], 'Lock'), 'auth_hash')),
+                'plugins': none(ip_), 'cleanup_connections': BV(1, 1), 'log_client_parameter_status_changes': BV(1, 0), 'prepared_statement_cache_size': BV(64, 0)}
+        missing = [n for n in names if n not in vals]
+        if missing:
+            raise Inconclusive('ServerPool fields %r unknown to the harness' % (missing,))
+        sp = Agg([vals[n] for n in names], 'ServerPool', list(names))
+        try:
+            fut = ip_.call_function(cands[0], [Ptr(Cell(sp, 'manager'))])
+            if isinstance(fut, Ptr):
+                fut = ip_.load(fut.cell, fut.path)
+            r = ip_.drive(fut)
+        except Panic as p:
+            raise Inconclusive('connect panic: ' + p.msg)
+        ob.nontrivial += 1
+        okr = variant(ip_, r, 'Result') == 'Ok'
+        # the entry's life as the calls describe it
+        registered, state = 0, None
+        for c_ in calls:
+            if c_ == 'register':
+                registered += 1
+                state = 'login'
+            elif c_ == 'disconnect':
+                registered -= 1
+            elif c_ in ('idle', 'login', 'active', 'tested'):
+                state = c_
+        what = None
+        if okr and registered != 1:
+            what = 'a successful connect leaves the connection registered %d time(s)' % registered
+        elif okr and state != 'idle':
+            what = 'a connection handed to bb8 is left in state %r (it sits in the pool, nobody is using it): SHOW SERVERS / sv_idle / sv_login / free_servers are wrong until a client has used it' % state
+        elif not okr and registered != 0:
+            what = 'a failed connect leaves %d entry(ies) registered' % registered
+        if what:
+            chk.report(ob, 'C18/O4/connect-state', '%s (statistics calls: %r)' % (what, calls), {'calls': calls}, {'commands': [{'op': 'connect_states'}], 'expect': ['c18_connect']})
+        if len(ob.samples) < 2:
+            ob.samples.append({'startup_ok': okr, 'calls': list(calls)})
+    ip.explore(harness)
+    chk.absorb(ob, ip)
+    chk.end(ob)
+
+
 def o1_rollup(chk, prog, cpools, spools):
     nclients, nservers = len(cpools), len(spools)
     name = 'O1-rollup-clients%s-servers%s' % (''.join(map(str, cpools)), ''.join(map(str, spools)))
@@ -233,6 +334,10 @@ def main(chk):
     if chk.thorough:
         tasks += [(prog, (0, 1, 1, 0), (0, 1, 1)), (prog, (2, 2, 0), (2,))]
     chk.parallel(o1_rollup, tasks)
+    try:
+        o4_connect(chk, prog)
+    except Inconclusive as e:
+        chk.note_inconclusive('O4-connect: %s' % e)
     try:
         o3_cancel_conn(chk, prog)
     except Inconclusive as e:
